@@ -249,7 +249,16 @@ fn render_doc(specs: &[ParaSpec], vs: &[Vec<usize>], layout: usize, leading_ok: 
             if layout == 1 && fi == 1 {
                 text.push_str("# a field comment\n");
             }
-            text.push_str(&render_para(&[(fs.name, val)]));
+            if layout == 7 && val.contains('\n') {
+                // a multi-line value that starts on the line after the field name (the usual form of Package-List,
+                // Files, Checksums-*, Tag, ... in APT indices)
+                text.push_str(&format!("{}:\n", fs.name));
+                for l in val.split('\n') {
+                    text.push_str(&format!(" {}\n", l));
+                }
+            } else {
+                text.push_str(&render_para(&[(fs.name, val)]));
+            }
             fields.push((fs.name.to_string(), val.to_string(), fs.norm, fs.name.to_string()));
         }
         model.push(fields);
@@ -349,7 +358,9 @@ fn check_doc(kind: &DocKind, shape: &[&'static str], vs: &[Vec<usize>], layout: 
             if shown != want {
                 out.push(viol("harness", ctx(&format!("lossless view {:?} differs from what was written {:?}", shown, want))));
             }
-            let got: Vec<(String, Vec<Vec<String>>)> = items.iter().map(|(k, v)| (k.clone(), model[*fi].iter().find(|(mk, _, _, _)| mk == k).map(|(_, _, n, _)| normalise(*n, v)).unwrap_or_else(|| vec![vec![v.clone()]]))).collect();
+            // (the lossy paragraph model keeps an empty first line as a leading newline - C08 - which the lossless value
+            // accessor does not show - C06 compares non-blank lines; it is not content)
+            let got: Vec<(String, Vec<Vec<String>>)> = items.iter().map(|(k, v)| (k.clone(), model[*fi].iter().find(|(mk, _, _, _)| mk == k).map(|(_, _, n, _)| normalise(*n, v.strip_prefix('\n').unwrap_or(v))).unwrap_or_else(|| vec![vec![v.clone()]]))).collect();
             if got != want {
                 out.push(viol("matches-lossless-view", ctx(&format!("paragraph {} ({}): typed value carries {:?}, the lossless reader shows {:?}", fi, role, got, want))));
             }
@@ -389,10 +400,10 @@ impl Prop for C20 {
         "exploration"
     }
     fn rule(&self, _t: Tier) -> String {
-        "per document kind (lossy control, copyright, apt Sources / Packages / Release stanza, removal record, lossy buildinfo, DEP-3 header, APT sources list): every paragraph sequence of its shape list (source before / between / after binaries; header + Files / licence paragraphs in every order; 1-2 repositories), with every presence/value vector within k deviations (k = 1, thorough 2) of the all-mandatory and the all-present baselines over the concatenated field tables, in 7 layouts (plain; leading + field comments; two blank separators + trailing blank; comments between paragraphs; no final newline; no blank after the colon and tab-indented continuation lines; leading blank lines); each document is parsed, compared field by field with the lossless reader's view, printed, re-parsed, compared and printed again; documented alias fields (DEP-3 From/Subject) instead of, next to, and together with a foreign field next to the canonical field; every mandatory field deleted in turn and every structurally invalid variant must be rejected; non-trivial = all".into()
+        "per document kind (lossy control, copyright, apt Sources / Packages / Release stanza, removal record, lossy buildinfo, DEP-3 header, APT sources list): every paragraph sequence of its shape list (source before / between / after binaries; header + Files / licence paragraphs in every order; 1-2 repositories), with every presence/value vector within k deviations (k = 1, thorough 2) of the all-mandatory and the all-present baselines over the concatenated field tables, in 8 layouts (plain; leading + field comments; two blank separators + trailing blank; comments between paragraphs; no final newline; no blank after the colon and tab-indented continuation lines; leading blank lines; multi-line values starting on the line after the field name); each document is parsed, compared field by field with the lossless reader's view, printed, re-parsed, compared and printed again; documented alias fields (DEP-3 From/Subject) instead of, next to, and together with a foreign field next to the canonical field; every mandatory field deleted in turn and every structurally invalid variant must be rejected; non-trivial = all".into()
     }
     fn bounds(&self, t: Tier) -> Value {
-        json!({"kinds": kinds().iter().map(|k| json!({"id": k.id, "shapes": (k.shapes)().len(), "invalid_variants": (k.invalid)().len()})).collect::<Vec<_>>(), "k": t.pick(1, 2), "layouts": 7})
+        json!({"kinds": kinds().iter().map(|k| json!({"id": k.id, "shapes": (k.shapes)().len(), "invalid_variants": (k.invalid)().len()})).collect::<Vec<_>>(), "k": t.pick(1, 2), "layouts": 8})
     }
     fn assumptions(&self) -> Vec<String> {
         vec![
@@ -445,7 +456,7 @@ impl Prop for C20 {
                         off += l;
                     }
                     let devs = dv.iter().filter(|d| **d != 0).count();
-                    for layout in 0..7 {
+                    for layout in 0..8 {
                         if layout > 0 && devs > 1 {
                             continue;
                         }
